@@ -81,6 +81,17 @@ impl ModelExecutor {
 
     fn deploy_event(&self, acts: &[Act], mid: &str, ver: i32) -> Result<()> {
         let store = self.runtime.cache().store();
+
+        // an event whose 'on' entry is no longer in the model must not start it any more
+        let events = store
+            .events()
+            .query(&Query::new().push(Cond::and().push(Expr::eq(consts::MODEL_ID, mid))))?;
+        for evt in events.rows {
+            if !acts.iter().any(|act| format!("{}:{}", mid, act.id) == evt.id) {
+                store.events().delete(&evt.id)?;
+            }
+        }
+
         for act in acts {
             let event_id = format!("{}:{}", mid, act.id);
             match store.events().find(&event_id) {
